@@ -11,7 +11,7 @@
      3  every placed line is allowed: at most once per (region, line); its end points are one of the longest
         inside runs (> 2 px) of the detected baseline in that region (Allowed of RegionAssign); every point of
         it lies on the detected baseline
-     4  its outline is clipped: covers only cells of the region, in the row of the line (tall = 1: ascender height 3, the
+     4  its outline is clipped: covers only cells of the region, in the row of the line (tall = 1: baseline a quarter pixel above the cell centre, ascender height 2.5, the
         outline band also covers the row above)
      5  every line wholly inside a region (> 2 px) is placed there with its points unchanged (Mandatory)
      6  (Detailed only; a mismatch is MODEL-DRIFT) the placed pairs are exactly those of the detailed model
@@ -41,7 +41,7 @@ ObsTuple(k) == <<P(k).region, P(k).line, P(k).pts[1][1], P(k).pts[Len(P(k).pts)]
 AllowedK == {<<t[1], t[2], K * t[3], K * t[4]>> : t \in Allowed(TRegs, TLines)}
 OnBaseline(k) == LET l == TLines[P(k).line]
                      pts == P(k).pts
-                 IN /\ \A m \in 1..Len(pts) : pts[m][2] = K * Y(l)
+                 IN /\ \A m \in 1..Len(pts) : pts[m][2] = K * Y(l) - (IF Tr.tall = 1 THEN 250 ELSE 0)
                     /\ \A m \in 1..(Len(pts) - 1) : pts[m][1] <= pts[m + 1][1]
 Clipped(k) == LET r == ShapeNamed(P(k).region)
                   l == TLines[P(k).line]
